@@ -91,10 +91,25 @@ func (r *Runner) execCallVals(st *State, f *Frame, common *ssa.CallCommon, fnv V
 		if callee == nil {
 			key := "(" + typeKey(common.Value.Type()) + ")." + common.Method.Name()
 			if sp := r.specFor(key); sp != nil {
-				if !r.pureIfaceMethod(typeKey(common.Value.Type()), common.Method.Name()) {
+				pure := r.pureIfaceMethod(typeKey(common.Value.Type()), common.Method.Name())
+				if !pure {
 					r.bumpIfaceVersion(st, typeKey(common.Value.Type()), recv)
 				}
+				// a read-only accessor that also has an assumed contract: its result is the same value
+				// icall("Method", recv, ...) denotes in contracts
+				var pv Val
+				linked := pure && res != nil && common.Signature().Results().Len() == 1
+				if linked {
+					pv = r.pureIfaceResult(st, typeKey(common.Value.Type()), common.Method.Name(), recv, args, common.Signature().Results().At(0).Type())
+				}
 				r.contractCall(st, f, sp, nil, common.Signature(), append([]Val{recv}, args...), res, pos)
+				if linked {
+					if got, ok := f.regs[res]; ok && len(got.C) == len(pv.C) {
+						for i := range got.C {
+							st.assume(Eq(got.C[i], pv.C[i]))
+						}
+					}
+				}
 				return
 			}
 			if r.pureIfaceMethod(typeKey(common.Value.Type()), common.Method.Name()) {
